@@ -1,8 +1,76 @@
-"""Replay driver for C11: loop-level findings by seed search (ssa.replay), rate-law findings by C01's driver."""
+"""Replay driver for C11: loop-level findings by seed search (ssa.replay), rate-law findings by C01's driver,
+findings in the growth/division model itself against the real StochasticTimeThresholdVolume."""
+import math
+import numpy as np
 from . import ssa, C01
+
+
+def _division_time(v, lo, hi):
+    """the real object's sampled division time, located through py_cell_divided: division is reported for the step
+    (T - dt, T] containing it, so with a step longer than the bracket the answer changes exactly at the division time"""
+    z = np.zeros(1)
+    big = 4 * (hi - lo) + 1.0
+    if not v.py_cell_divided(z, z, hi, 1.0, big):
+        return None
+    for _ in range(200):
+        mid = 0.5 * (lo + hi)
+        if v.py_cell_divided(z, z, mid, 1.0, big):
+            hi = mid
+        else:
+            lo = mid
+    return hi
+
+
+def replay_sttv(spec):
+    from bioscrape.types import StochasticTimeThresholdVolume
+    from bioscrape.random import py_seed_random, py_normal_rv
+    z = np.zeros(1)
+    problems = []
+    for cyc, Vd, noise in ((2.0, 2.0, 0.0), (1.5, 3.0, 0.2), (0.7, 2.5, 0.05)):
+        g = 0.69314718056 / cyc
+        for t0, V in ((0.0, 1.0), (3.0, 1.0), (7.25, 1.6), (-2.0, 0.8)):
+            for seed in (1, 2, 3):
+                v = StochasticTimeThresholdVolume(cyc, Vd, noise)
+                py_seed_random(seed)
+                v.py_initialize(z, z, t0, V)
+                py_seed_random(seed)
+                want = t0 + py_normal_rv(1.0, noise) * math.log(Vd / V) / g
+                if abs(v.py_get_volume() - V) > 0:
+                    problems.append("initialize(time=%s, volume=%s) recorded volume %s" % (t0, V, v.py_get_volume()))
+                got = _division_time(v, min(t0, want, 0.0) - 50.0, max(t0, want, 0.0) + 50.0)
+                if got is None or abs(got - want) > 1e-6:
+                    problems.append("cycle=%s Vdiv=%s noise=%s: initialize(time=%s, volume=%s) sampled division time %s, "
+                                    "time + Normal(1, noise)*ln(Vdiv/V)/g on the same stream is %s" % (cyc, Vd, noise, t0, V, got, want))
+                k = v.py_copy() if hasattr(v, "py_copy") else None
+                if k is not None:
+                    gk = _division_time(k, min(t0, want, 0.0) - 50.0, max(t0, want, 0.0) + 50.0)
+                    if gk is None or got is None or abs(gk - got) > 1e-9 or k.py_get_volume() != v.py_get_volume():
+                        problems.append("copy has division time %s / volume %s, original %s / %s" % (gk, k.py_get_volume(), got, v.py_get_volume()))
+                for dt in (0.01, 0.25):
+                    d = v.py_get_volume_step(z, z, t0, V, dt)
+                    if abs((V + d) - V * math.exp(g * dt)) > 1e-12:
+                        problems.append("volume step from %s over dt=%s gives %s, V*exp(g*dt) is %s" % (V, dt, V + d, V * math.exp(g * dt)))
+                if v.py_get_volume_step(z, z, t0, V, 0.0) != 0:
+                    problems.append("a zero-length volume step changes the volume")
+                # the reporting window is exactly (T - dt, T]
+                if got is not None:
+                    for T, dt, exp_ in ((got + 0.05, 0.1, True), (got + 0.2, 0.1, False), (got - 0.05, 0.1, False)):
+                        if bool(v.py_cell_divided(z, z, T, V, dt)) != exp_:
+                            problems.append("division time %s: cell_divided(time=%s, dt=%s) is %s" % (got, T, dt, not exp_))
+            if problems:
+                break
+        if problems:
+            break
+    return {"reproduced": bool(problems), "observed": problems[:3],
+            "expected": "growth by exp(g*dt) per step, division time = time + Normal(1, noise)*ln(Vdiv/V)/g, reported once in the step containing it"}
 
 
 def replay(spec):
     if spec.get("kind") in ("massaction", "hill"):
         return C01.replay(spec)
+    if spec.get("kind") == "sttv":
+        r = replay_sttv(spec)
+        if r["reproduced"]:
+            return r
+        spec = dict(spec, kind="volume")
     return ssa.replay(spec)
